@@ -7,7 +7,10 @@ PKG = {"C01":"proc/redis","C02":"proc/redis","C03":"proc/redis","C04":"proc/redi
  "C15-c":"host","C15-d":"proc/internal/hc","C17-d":"proc","C19-d":"proc/redis",
  # third wave
  "C05-e":"proc/tcp","C05-f":"proc/tcp","C06-e":"proc/tcp","C06-f":"proc/tcp","C08-e":"controller","C08-f":"controller","C09-e":"proc/redis","C09-f":"proc",
- "C15-e":"host","C15-f":"host","C19-e":"proc/redis/hotkey","C19-f":"proc/redis/hotkey","C20-e":"proc/tcp","C20-f":"proc/redis"}
+ "C15-e":"host","C15-f":"host","C19-e":"proc/redis/hotkey","C19-f":"proc/redis/hotkey","C20-e":"proc/tcp","C20-f":"proc/redis",
+ # fourth and fifth wave
+ "C05-g":"proc/tcp","C05-h":"proc/tcp","C06-g":"proc/tcp","C06-h":"proc/internal/lb","C08-g":"controller","C08-h":"controller","C09-h":"proc/tcp",
+ "C15-g":"host","C15-h":"proc/internal/hc","C19-g":"proc/redis/hotkey","C19-h":"proc/redis/hotkey","C19-i":"proc/redis/hotkey","C20-g":"proc/redis","C20-h":"proc/redis"}
 root="/verif/seeded"
 only=sys.argv[1:]
 for d in sorted(os.listdir(root)):
